@@ -156,6 +156,8 @@ class Unit:
                 denominator[0] = unit
         if numerator[1] not in ('U', 'mol', 'L', 'g') or denominator[0] not in ('U', 'mol', 'L', 'g'):
             raise ValueError("Concentration must be of the form '1 umol/mL'.")
+        if numerator[0] in (float('inf'), float('-inf')):
+            raise ValueError("Value is not a finite number.")  # ('1e308 kmol/L')
         return Unit.round_concentration(numerator[0]), numerator[1], denominator[0]
 
     @staticmethod
